@@ -40,6 +40,7 @@ import InspectorModel.Spec.StrAnyMapSpec
 import InspectorModel.Spec.BufSpec
 import InspectorModel.Spec.CopyHyp
 import InspectorModel.Spec.CopyObs
+import InspectorModel.Spec.SetHyps
 -- hypothesis predicates evaluated on every real input live next to the lemmas that use them
 import InspectorModel.Proofs.C09
 import InspectorModel.Proofs.C10
@@ -47,3 +48,4 @@ import InspectorModel.Proofs.C15
 import InspectorModel.Proofs.C18
 import InspectorModel.Proofs.DEQHyps
 import InspectorModel.Proofs.C02Hyps
+import InspectorModel.Proofs.C13Hyps
